@@ -25,14 +25,21 @@ def _enc_param(v):
     return -1 if v is None else int(round(float(v) * Q)) % Q
 
 
-def observe(atoms, tol=TOL, order=None, with_params=True):
-    """order: optional list of getter names called first (history independence, Analyzer.tla)."""
+def observe(atoms, tol=TOL, order=None, with_params=True, reuse=None, keep=None):
+    """order: optional list of getter names called first; reuse: an analyzer object that already analysed another
+    structure and is given this one through set_system (history independence, Analyzer.tla)."""
     from matid.symmetry import SymmetryAnalyzer
 
-    an = SymmetryAnalyzer(atoms, symmetry_tol=tol)
+    if reuse is not None:
+        an = reuse
+        an.set_system(atoms)
+    else:
+        an = SymmetryAnalyzer(atoms, symmetry_tol=tol)
+    if keep is not None:
+        keep.append(an)
     for name in order or []:
         getattr(an, name)()
-    o = {"n_in": len(atoms), "vol_in": int(round(atoms.get_volume() * 1000)), "tol6": int(round(tol * 1e6))}
+    o = {"reused_analyzer": reuse is not None, "n_in": len(atoms), "vol_in": int(round(atoms.get_volume() * 1000)), "tol6": int(round(tol * 1e6))}
     o["number"] = int(an.get_space_group_number())
     o["hall"] = int(an.get_hall_number())
     o["pointgroup"] = str(an.get_point_group())
